@@ -342,7 +342,7 @@ def main():
      "notes": "See DESIGN.md. Genuine defects repaired in /repo by 'fix:' commits: 3779468 (F1, C15), 90a667a "
               "(F2, C01/C06), ab26aa5 (F3, C12), 9d605d2 (F4, C06), 72f5b5b (F6, C09), 9d9dc18 (F9, C12), 30ffe8c (F10, C03), "
               "b10dabe (F11, C04), a2363a7 (F12, C04), bc7512c (F13, C02/C12), a1c15da (F14, C15/C08), 246fb33 (F15, C20), df35f99 (F16, C12), fbcbea6 (F17, C04), "
-              "acc6cdb (F18, C10), 31f6c48 (F19, C07), 0d71334 (F20, C16), dfc1e75 (F21, C02/C13), be153ad (F22, C03/C07), 79af58b (F23, C18), 75f3c61 (F24, C20), d1c8bd9 (F25, C04), 39a39ee (F26, C13), 79a0d7d (F27, C16), 2a5879d (F28, C11/C15), 730e82f (F29, C05/C01), bf6dcaf (F30, C17); known, not repaired: F5 (C07 shutdown hang), F7 (C17 borrowed loop); see known_findings.json.",
+              "acc6cdb (F18, C10), 31f6c48 (F19, C07), 0d71334 (F20, C16), dfc1e75 (F21, C02/C13), be153ad (F22, C03/C07), 79af58b (F23, C18), 75f3c61 (F24, C20), d1c8bd9 (F25, C04), 39a39ee (F26, C13), 79a0d7d (F27, C16), 2a5879d (F28, C11/C15), 730e82f (F29, C05/C01), bf6dcaf (F30, C17), 75b611c (F31, C16); known, not repaired: F5 (C07 shutdown hang), F7 (C17 borrowed loop); see known_findings.json.",
      "not_applicable": [],
     }
     for pid in sorted(CHECKS):
